@@ -473,6 +473,39 @@ def replay_known(ctx):
             ctx.violation(dict(w, go=g[:300]), f"fixed finding {e['id']} fails again: {e.get('what', '')[:160]}")
 
 
+def run_field_shadow(j, rows):
+    """A data field named like a builtin member of objects (the analyzer lets the declared field win and offers it with
+    the field's type): `.name` is the field on both runtimes — read, assigned, compound-assigned. The names come from
+    the regenerated member table (every member the analyzer offers on an object)."""
+    ctx = j.ctx
+    names = sorted({r[1] for r in rows if r[0] in ("obj", "object") and isinstance(r[1], str)}) or ["to_string", "keys", "to_json", "to_json_indent"]
+    for must in ("to_string", "keys", "to_json", "to_json_indent"):
+        if must not in names:
+            names.append(must)
+    progs = []
+    for n in names:
+        progs.append((n, f'type T = {{ {n}: int, other: str }};\nfn main() {{ let c = "{{\\"{n}\\": 3, \\"other\\": \\"x\\"}}".parse_json() as T; '
+                         f'println(c.{n} + 1); c.{n} = 5; println(c.{n}); c.{n} += 2; println(c.{n}, c.other); let d = c; d.{n} = 1; println(c.{n}); }}'))
+    outs = parallel_go("run", [f"(run (main {core.xhex(p)}))" for _, p in progs])
+    for (n, src), g in zip(progs, outs):
+        j.stats["field_shadow_programs"] = j.stats.get("field_shadow_programs", 0) + 1
+        ctx.count(case_key=src, nontrivial=True)
+        rep = {"kind": "prog", "main": src, "rep": "obj", "member": n}
+        if g.startswith(("CRASH", "HANG", "PANIC")):
+            j.violate(("prog-crash", "field-shadow", n), rep, f"the accepted program `{src}` crashes the host: {g[:140]}")
+            continue
+        parts = dict(p.split("=", 1) for p in g.split(" | ") if "=" in p)
+        if not parts.get("A", "").startswith("ACCEPT"):
+            ctx.coverage["field_shadow_rejected"] = ctx.coverage.get("field_shadow_rejected", 0) + 1
+            continue
+        for be in ("VM", "TREE"):
+            o = progstream.parse_outcome(parts.get(be))
+            if o["cls"] != "OK" or o.get("out") != "4\n5\n7 x\n1\n":
+                j.violate(("field-shadow", be), rep, f"a data field named like the builtin member `{n}`: the {be} backend ends {o['cls']} {o.get('kind', '')} "
+                                                    f"out={o.get('out', '')[-60:]!r}, the field semantics give '4\\n5\\n7 x\\n1\\n' (`{src}`)")
+                break
+
+
 def run(ctx):
     st = core.prepare(ctx, MODULES)
     ctx.assumptions += [
@@ -506,6 +539,7 @@ def run(ctx):
         run_sequences(j, 4000, 8, 1500)
     else:
         run_sequences(j, 60000, 14, 12000)
+    run_field_shadow(j, rows)
     ctx.coverage.update(j.stats)
     ctx.coverage["exhaustive"] = True
     ctx.coverage["rule"] = ("the regenerated analyzer member table (every representative x every member) x boundary receivers "
